@@ -118,6 +118,58 @@ Section Store.
   Definition open_root (fuel : nat) (s : store) (name : N) (v : ver) : option (node V) :=
     expand fuel (sget s name) [] (SRef v).
 
+  (* trie/iterator.go with minVer, as used by muxdb Trie.Checkpoint(baseMajorVer) on a trie opened at a stored root:
+     pre-order walk; a child that is a reference (or a loaded clean node: cache() gives its ref, !dirty) whose version
+     compares below minVer is skipped together with its whole subtree (peek for the root, nextChild for the children of
+     full / short nodes); embedded nodes (decoded with ref = nil, hence dirty) are entered without a test and have no blob;
+     value nodes are leaves.  Every standalone node met is reported as (path, version, blob as read through the reader) —
+     these are exactly the iterations for which Blob() is non-empty, i.e. the deduped-space puts of Checkpoint.
+     A reference that cannot be loaded makes the iterator fail (Checkpoint returns the error and the pruner does not
+     delete): None.  fuel bounds the depth. *)
+  Definition ver_ltb (a b : ver) : bool := (fst a <? fst b) || ((fst a =? fst b) && (snd a <? snd b)).
+
+  Fixpoint iter_nodes (fuel : nat) (get : list nat -> ver -> option snode) (min : ver) (p : list nat) (n : snode)
+    : option (list (list nat * ver * snode)) :=
+    match fuel with
+    | O => None
+    | S f =>
+      match n with
+      | SNil => Some []
+      | SValue _ => Some []
+      | SShort k c => iter_nodes f get min (p ++ k) c
+      | SFull cs =>
+        (fix go (l : list snode) (i : nat) : option (list (list nat * ver * snode)) :=
+           match l with
+           | [] => Some []
+           | c :: t =>
+             match iter_nodes f get min (p ++ [i]) c, go t (S i) with
+             | Some a, Some b => Some (a ++ b)
+             | _, _ => None
+             end
+           end) cs 0%nat
+      | SRef w =>
+        if ver_ltb w min then Some []
+        else match get p w with
+             | None => None
+             | Some b => match iter_nodes f get min p b with Some r => Some ((p, w, b) :: r) | None => None end
+             end
+      end
+    end.
+
+  (* the nodes Trie.Checkpoint(base) of the trie opened at root (name, v) puts into the deduped space
+     (pruner.go: the index trie and the account trie of block target-1, and each storage trie met whose
+     StorageMajorVer >= base — for an older storage root the iterator's own root test gives the same: nothing) *)
+  Definition checkpoint_nodes (fuel : nat) (s : store) (name : N) (v : ver) (base : N)
+    : option (list (list nat * ver * snode)) :=
+    iter_nodes fuel (sget s name) (base, 0) [] (SRef v).
+
+  (* one round of the pruner for one trie: checkpoint the root of block target-1, then delete [base, target) *)
+  Definition prune_trie (fuel : nat) (s : store) (name : N) (v : ver) (base target : N) : option store :=
+    match checkpoint_nodes fuel s name v base with
+    | Some nodes => Some (delete_history (checkpoint s name nodes) base target)
+    | None => None
+    end.
+
   (* the cache layer: a partial map answering before the store *)
   Definition cached_get (cache : list nat -> ver -> option snode) (get : list nat -> ver -> option snode)
              (p : list nat) (v : ver) : option snode :=
